@@ -180,6 +180,11 @@ def run(rep, tier, driver):
                 rep.extra["skeleton_samples"].append([name, o["canon"]])
             rep.violation("input", {"iupac": name, "parent": sg, "position": pos, "token": tok}, {"result": o["canon"]},
                           "every other atom and stereocentre of the sugar unchanged", key="skeleton:" + name)
+    # reactor Model in the loop: token dispatch / extract_bridge / set_fg of the first round, side_chains compared cell by cell
+    import reactx
+    extra_names = ["Glc2NAc", "GlcNAc", "Glc3OMe", "Gal6-O-Me-", "Glc2-N-Ac-", "Neu5Ac", "Neu5Gc", "NeuAc", "GlcA", "Glc-uronic", "GlcN", "FruN", "Glc3d", "Glc3e", "Glc2NS", "Glc6PCho",
+                   "Glc3CMe", "D-Glc", "L-Glc", "Glc2N3", "GlcNS6S", "Man6PEtn", "Gal3,4-Pyr", "Glc2NBz", "Glc6OAc", "Glc2,3,4Ac3", "1,6-Anhydro-Glc2Ac", "Glc-ol2Ac", "Glc7S", "GlcA2S"]
+    reactx.run(rep, tier, driver, [j[0] for j in jobs][: (2500 if tier == "quick" else 60000)] + extra_names)
     # composition: several modifications, all orders
     mods_pool = ["Ac", "S", "P", "Bz", "F", "N3", "Gc", "Bn"]
     names, groups = [], []
